@@ -382,3 +382,6 @@ PARTS = [
     Part("downup", check_downsample, {"quick": 5000, "thorough": 100000}, strategy=st_downsample),
     Part("blocks", check_blocks, {"quick": 7000, "thorough": 150000}, strategy=st_blocks),
 ]
+
+# thorough tier: the same Hypothesis tests driven by atheris/libFuzzer (coverage on sigpy.util/linop/block)
+FUZZ = {"parts": ["resize", "downup", "blocks"], "runs": 320000}
